@@ -96,6 +96,25 @@ pub(crate) trait Method {
     fn ongoing_input_session(&self) -> bool;
     fn finish_input_session(&mut self);
     fn backspace_event(&mut self, ctrl: bool, data: &Data, config: &Config) -> Suggestion;
+    /// Verification hook (cfg(riti_verif) only): dump the internal state as JSON.
+    #[cfg(riti_verif)]
+    fn verif_get_state(&self) -> String;
+    /// Verification hook (cfg(riti_verif) only): plant the internal state from JSON.
+    #[cfg(riti_verif)]
+    fn verif_set_state(&mut self, state: &str);
+}
+
+#[cfg(riti_verif)]
+impl RitiContext {
+    /// Verification hook: dump the internal state of the current method as JSON.
+    pub fn verif_get_state(&self) -> String {
+        self.method.borrow().verif_get_state()
+    }
+
+    /// Verification hook: plant the internal state of the current method from JSON.
+    pub fn verif_set_state(&self, state: &str) {
+        self.method.borrow_mut().verif_set_state(state)
+    }
 }
 
 impl dyn Method {
